@@ -254,6 +254,120 @@ NLSFIndexOK(cbSel, idx) ==
 \* interpolated vector for the first half of a 20 ms frame (decode_parameters), w in 0..3
 NLSFInterp(prevQ, q, w) == [i \in 1..Len(q) |-> S16(prevQ[i] + Shr(w * (q[i] - prevQ[i]), 2))]
 
+-----------------------------------------------------------------------------
+(* Prediction coefficients from NLSFs (RFC 6716 4.2.7.5.5-4.2.7.5.8):       *)
+(* silk_NLSF2A, silk_LPC_fit, silk_bwexpander_32, silk_bwexpander.  The      *)
+(* 32x32->64-bit products of the C code are computed exactly with the        *)
+(* operands split into limbs so that every intermediate stays below 2^31.    *)
+(* Not modelled: silk_LPC_inverse_pred_gain (the decision how many rounds    *)
+(* of bandwidth expansion NLSF2A applies); NLSF2ACandidates lists the        *)
+(* outcome for every possible number of rounds 0..16.                        *)
+
+\* (a*b + 2^15) >> 16 exactly, for |a| < 2^18 and any 32-bit b   (silk_RSHIFT_ROUND64(silk_SMULL(a, b), 16))
+MulRR16(a, b) ==
+  LET bh == b \div 65536  bl == b % 65536
+      ah == a \div 256    al == a % 256
+      tt == ah * bl
+  IN a * bh + (tt \div 256) + (((tt % 256) * 256 + al * bl + 32768) \div 65536)
+\* (a*b) >> 16 exactly, same operand ranges   (silk_SMULWW)
+MulShr16(a, b) ==
+  LET bh == b \div 65536  bl == b % 65536
+      ah == a \div 256    al == a % 256
+      tt == ah * bl
+  IN a * bh + (tt \div 256) + (((tt % 256) * 256 + al * bl) \div 65536)
+
+Ordering16 == <<0, 15, 8, 7, 4, 11, 12, 3, 2, 13, 10, 5, 6, 9, 14, 1>>
+Ordering10 == <<0, 9, 6, 3, 4, 5, 8, 1, 2, 7>>
+
+\* 2*cos(pi*NLSF) in Q16 by table interpolation, stored at the reordered position
+CosQ16(v) ==
+  LET fi == v \div 256  ff == v % 256
+      c0 == Tab.cos[fi + 1]  dl == Tab.cos[fi + 2] - c0
+  IN RShiftRound(c0 * 256 + dl * ff, 4)
+CosReordered(q) ==
+  LET d == Len(q)  ord == IF d = 16 THEN Ordering16 ELSE Ordering10 IN
+  [j \in 0..(d - 1) |-> CosQ16(q[(CHOOSE k \in 1..d : ord[k] = j)])]
+
+\* silk_NLSF2A_find_poly: one more factor (1 - f z + z^2); every right-hand side reads the old polynomial
+PolyStep(old, k, f, dd) ==
+  [n \in 0..dd |->
+     IF n = 0 THEN old[0]
+     ELSE IF n = 1 THEN old[1] - f
+     ELSE IF n <= k THEN old[n] + old[n - 2] - MulRR16(f, old[n - 1])
+     ELSE IF n = k + 1 THEN 2 * old[k - 1] - MulRR16(f, old[k])
+     ELSE 0]
+RECURSIVE PolyFrom(_, _, _, _)
+PolyFrom(out0, k, c, dd) ==
+  IF k = dd THEN out0 ELSE Only({ PolyFrom(PolyStep(out, k, c[k], dd), k + 1, c, dd) : out \in {out0} })
+\* c[0..dd-1]
+FindPoly(c, dd) == PolyFrom([n \in 0..dd |-> IF n = 0 THEN 65536 ELSE IF n = 1 THEN -c[0] ELSE 0], 1, c, dd)
+
+\* unscaled coefficients in Q17, 0-based
+A32FromNLSF(q) ==
+  LET d == Len(q)  dd == d \div 2 IN
+  Only({ Only({ [k \in 0..(d - 1) |->
+                   IF k < dd THEN -(PQ[2][k + 1] - PQ[2][k]) - (PQ[1][k + 1] + PQ[1][k])
+                   ELSE LET m == d - k - 1 IN (PQ[2][m + 1] - PQ[2][m]) - (PQ[1][m + 1] + PQ[1][m])]
+                : PQ \in {<<FindPoly([i \in 0..(dd - 1) |-> cs[2 * i]], dd),
+                            FindPoly([i \in 0..(dd - 1) |-> cs[2 * i + 1]], dd)>>} })
+         : cs \in {CosReordered(q)} })
+
+\* silk_bwexpander_32 on a 0-based vector
+RECURSIVE Bwe32From(_, _, _, _, _)
+Bwe32From(ar0, i, d, chirp0, cm1) ==
+  Only({ IF i = d - 1 THEN [ar EXCEPT ![i] = MulShr16(chirp, ar[i])]
+         ELSE Bwe32From([ar EXCEPT ![i] = MulShr16(chirp, ar[i])], i + 1, d, chirp + RShiftRound(chirp * cm1, 16), cm1)
+       : ar \in {ar0}, chirp \in {chirp0} })
+Bwe32(ar, d, chirp) == Bwe32From(ar, 0, d, chirp, chirp - 65536)
+
+\* silk_LPC_fit(a_Q12, a_Q17, 12, 17, d): result [a32 |-> updated Q17 vector, a |-> Q12 values before the int16 cast]
+MaxAbsIdx(a, d) ==      \* <<first index of the largest magnitude, that magnitude>>
+  Only({ <<I, Abs(a[I])>> : I \in {i \in 0..(d - 1) : \A j \in 0..(d - 1) : Abs(a[j]) < Abs(a[i]) \/ (Abs(a[j]) = Abs(a[i]) /\ j >= i)} })
+RECURSIVE FitFrom(_, _, _)
+FitFrom(a0, d, it) ==
+  Only({ IF it = 10
+         THEN LET c == [k \in 0..(d - 1) |-> Sat16(RShiftRound(a[k], 5))] IN [a32 |-> [k \in 0..(d - 1) |-> c[k] * 32], a |-> c]
+         ELSE Only({ IF RShiftRound(mi[2], 5) > 32767
+                     THEN LET m == Min2(RShiftRound(mi[2], 5), 163838)
+                              chirp == 65470 - TruncDiv((m - 32767) * 16384, Shr(m * (mi[1] + 1), 2))
+                          IN FitFrom(Bwe32(a, d, chirp), d, it + 1)
+                     ELSE [a32 |-> a, a |-> [k \in 0..(d - 1) |-> RShiftRound(a[k], 5)]]
+                   : mi \in {MaxAbsIdx(a, d)} })
+       : a \in {a0} })
+LPCFit(a32, d) == FitFrom(a32, d, 0)
+
+\* silk_bwexpander (16-bit coefficients, 1-based sequence), used after a lost packet with chirp 63570
+RECURSIVE Bwe16From(_, _, _, _)
+Bwe16From(ar0, i, chirp0, cm1) ==
+  Only({ IF i = Len(ar) THEN [ar EXCEPT ![i] = S16(RShiftRound(chirp * ar[i], 16))]
+         ELSE Bwe16From([ar EXCEPT ![i] = S16(RShiftRound(chirp * ar[i], 16))], i + 1, chirp + RShiftRound(chirp * cm1, 16), cm1)
+       : ar \in {ar0}, chirp \in {chirp0} })
+Bwe16(ar, chirp) == Bwe16From(ar, 1, chirp, chirp - 65536)
+BweAfterLossQ16 == 63570
+
+MaxLpcStabIter == 16
+AsSeq(f, d) == [k \in 1..d |-> f[k - 1]]
+FitsInt16(s) == \A k \in 1..Len(s) : s[k] >= -32768 /\ s[k] <= 32767
+\* does `a` (the int16 coefficients the library produced) equal the NLSF2A outcome after some number of
+\* stabilising rounds, with every Q12 value inside 16 bits before the cast?
+RECURSIVE A2Match(_, _, _, _, _)
+A2Match(a, a32, cur, d, i) ==
+  \/ (FitsInt16(cur) /\ cur = a)
+  \/ /\ i < MaxLpcStabIter
+     /\ Only({ A2Match(a, nx, AsSeq([k \in 0..(d - 1) |-> RShiftRound(nx[k], 5)], d), d, i + 1)
+              : nx \in {Bwe32(a32, d, 65536 - 2 ^ (i + 1))} })
+NLSF2AMatches(a, q) ==
+  LET d == Len(q) IN Only({ A2Match(a, f.a32, AsSeq(f.a, d), d, 0) : f \in {LPCFit(A32FromNLSF(q), d)} })
+\* the same with the post-loss bandwidth expansion applied on top
+RECURSIVE A2MatchLoss(_, _, _, _, _)
+A2MatchLoss(a, a32, cur, d, i) ==
+  \/ (FitsInt16(cur) /\ Bwe16(cur, BweAfterLossQ16) = a)
+  \/ /\ i < MaxLpcStabIter
+     /\ Only({ A2MatchLoss(a, nx, AsSeq([k \in 0..(d - 1) |-> RShiftRound(nx[k], 5)], d), d, i + 1)
+              : nx \in {Bwe32(a32, d, 65536 - 2 ^ (i + 1))} })
+NLSF2AMatchesLoss(a, q) ==
+  LET d == Len(q) IN Only({ A2MatchLoss(a, f.a32, AsSeq(f.a, d), d, 0) : f \in {LPCFit(A32FromNLSF(q), d)} })
+
 \* sanity of the exported tables that the index arithmetic above relies on (shape only)
 CBShapeOK(cb) ==
   /\ cb.order \in {10, 16} /\ cb.nv = 32
